@@ -71,8 +71,8 @@ Proof.
 Qed.
 
 Lemma unpack_name_go_good fuel : forall msg curr ptr newoff name,
-  newoff <= length msg -> ptr <= 10 -> length name <= 254 ->
-  (10 - ptr) + (254 - length name) < fuel ->
+  newoff <= length msg -> ptr <= 127 -> length name <= 254 ->
+  (127 - ptr) + (254 - length name) < fuel ->
   good msg (unpack_name_go fuel msg curr ptr newoff name).
 Proof.
   induction fuel as [|fuel IH]; intros msg curr ptr newoff name Hn Hp Hl Hf; [lia|].
@@ -91,7 +91,7 @@ Proof.
   - destruct (N.land c 192 =? 192)%N eqn:Etop2; [|exact I].
     destruct (length msg <=? S curr) eqn:E1; [exact I|]. apply Nat.leb_gt in E1.
     destruct (get_some msg (S curr) E1) as [c1 Hc1]. rewrite Hc1.
-    destruct (10 <? S ptr) eqn:E2; [exact I|]. apply Nat.ltb_ge in E2.
+    destruct (127 <? S ptr) eqn:E2; [exact I|]. apply Nat.ltb_ge in E2.
     apply IH; auto; [destruct (Nat.eqb ptr 0); lia | lia].
 Qed.
 
@@ -102,8 +102,8 @@ Proof.
   assert (length msg <=? off = true) as -> by (apply Nat.leb_le; lia). reflexivity.
 Qed.
 
-Lemma name_fuel_S : name_fuel = S 299. Proof. reflexivity. Qed.
-Lemma name_fuel_big : 264 < name_fuel. Proof. unfold name_fuel. lia. Qed.
+Lemma name_fuel_S : name_fuel = S 399. Proof. reflexivity. Qed.
+Lemma name_fuel_big : 381 < name_fuel. Proof. unfold name_fuel. lia. Qed.
 Global Opaque name_fuel.
 
 Lemma unpack_name_good msg off : good msg (unpack_name msg off).
@@ -148,7 +148,7 @@ Proof.
   - destruct (N.land c 192 =? 192)%N eqn:Etop2; [|discriminate].
     destruct (length msg <=? S curr) eqn:E1; [discriminate|].
     destruct (get msg (S curr)) as [c1|] eqn:Hc1; [|discriminate].
-    destruct (10 <? S ptr) eqn:E2; [discriminate|].
+    destruct (127 <? S ptr) eqn:E2; [discriminate|].
     eapply IH; eauto.
 Qed.
 
@@ -233,7 +233,7 @@ Inductive dec_end_at (msg : list N) : nat -> nat -> Prop :=
 
 Lemma dec_unpack msg p ls h : dec msg p ls h ->
   forall fuel ptr newoff name,
-    h + ptr <= 10 ->
+    h + ptr <= 127 ->
     length name + length (raw ls) + 1 <= 255 ->
     length ls + h < fuel ->
     exists off', unpack_name_go fuel msg p ptr newoff name = Ok (name ++ raw ls, off').
@@ -266,7 +266,7 @@ Proof.
     rewrite Hi, Hc. cbn [N.eqb Pos.eqb].
     destruct (length msg <=? S p) eqn:E1; [apply Nat.leb_le in E1; lia|].
     rewrite Hi1.
-    destruct (10 <? S ptr) eqn:E2; [apply Nat.ltb_lt in E2; lia|].
+    destruct (127 <? S ptr) eqn:E2; [apply Nat.ltb_lt in E2; lia|].
     apply IH; lia.
 Qed.
 
